@@ -39,7 +39,15 @@ def main():
             records.append(dict(kind=str(c.get("kind", "case")) if isinstance(c, dict) else "case", case=c,
                                 obs=dict(exception=type(e).__name__, where=tb[-3:]), coq="", tags=[],
                                 oracle=["required-call-raised"], key=f"raised/{type(e).__name__}", size=0))
-    stats = mod.stats(records) if hasattr(mod, "stats") else {}
+    try:
+        stats = mod.stats(records) if hasattr(mod, "stats") else {}
+    except Exception as e:  # noqa: BLE001 - statistics are informational; records of raised cases lack fields
+        good = [r for r in records if not str(r.get("key", "")).startswith("raised/")]
+        try:
+            stats = mod.stats(good)
+        except Exception:  # noqa: BLE001
+            stats = {}
+        stats["stats_error"] = type(e).__name__
     stats["impl_s"] = round(time.time() - t0, 2)
     json.dump(dict(records=records, stats=stats, exhaustive=getattr(mod, "EXHAUSTIVE", False)), open(out, "w"))
 
